@@ -712,8 +712,14 @@ class unyt_array(np.ndarray):
                     new_units, self.dtype
                 )
 
-            self.units = new_units
             values = self.d
+            if self.dtype.kind in ("u", "i") and values.dtype.itemsize == 1:
+                raise ValueError(
+                    "Can't convert memory buffer in place. "
+                    f"Input dtype ({self.dtype}) has a smaller itemsize than the "
+                    "smallest floating point representation possible."
+                )
+            self.units = new_units
             # if our dtype is an integer do the following somewhat awkward
             # dance to change the dtype in-place. We can't use astype
             # directly because that will create a copy and not update self
@@ -722,12 +728,6 @@ class unyt_array(np.ndarray):
                 # form, it's possible this may lose precision for very
                 # large integers
                 dsize = values.dtype.itemsize
-                if dsize == 1:
-                    raise ValueError(
-                        "Can't convert memory buffer in place. "
-                        f"Input dtype ({self.dtype}) has a smaller itemsize than the "
-                        "smallest floating point representation possible."
-                    )
                 new_dtype = "f" + str(dsize)
                 large = LARGE_INPUT.get(dsize, 0)
                 if large and np.any(np.abs(values) > large):
